@@ -1696,9 +1696,11 @@ XMLCh* XMLDateTime::getDateCanonicalRepresentation(MemoryManager* const memMgr) 
      *   12 yyyy-mm-dd-14:00   yyyy-mm-ddT14:00Z   YYYY-MM-DD+10:00
      */
     int utcSize = (fValue[utc] == UTC_UNKNOWN) ? 0 : 1;
-    // YYYY-MM-DD  + chNull
+    // YYYY-MM-DD  + chNull (+ the sign of a negative year)
     // 1234567890  + 1
     int memLength = 10 + 1 + utcSize;
+    if (fValue[CentYear] < 0)
+        memLength++;
 
     if (fTimeZone[hh] != 0 || fTimeZone[mm] != 0) {
         // YYYY-MM-DD+HH:MM  (utcSize will be 1 so drop that)
